@@ -36,6 +36,15 @@ CLAIMS = {
              "in KNOWN_FINDINGS.txt by exact kind; anything else is a violation.",
         note="pre-state values finite; axes box and tool-number range concrete; floats as reals",
         ref="§4 C05"),
+    "C17": dict(
+        text="Inductive step for the read-buffer invariant: one readline() from an arbitrary buffer and "
+             "a scripted socket of up to 3 reads (data chunks of 1-4 or 256 bytes, timeouts with either "
+             "select answer, end-of-stream); z3 decides over all byte contents that returned line + "
+             "remaining buffer = bytes received in order, lines are cut after exactly one newline, the "
+             "tail is delivered once at end-of-stream.",
+        note="socket file and selector are scripted stubs; chunk sizes 5..255 only by induction; "
+             "OSError paths not explored",
+        ref="§4 C17"),
     "C07": dict(
         text="Inductive step of I7: after any of 96 call shapes from an arbitrary consistent state "
              "(symbolic feed, power, temperatures, E parameter, tool number) every state property "
